@@ -43,6 +43,9 @@ func (l *JSON) Load(path string) error {
 
 // Unmarshal will decode bytes
 func (l *JSON) Unmarshal(b []byte) error {
+	// decode into an empty config: keys, list elements and map entries that are absent from this
+	// document must not survive from an earlier load, and values already published must not be written again
+	l.ServerConfig = config.ServerConfig{}
 	if err := json.Unmarshal(b, &l.ServerConfig); err != nil {
 		return fmt.Errorf("unable to unmarshal server config; %v", err)
 	}
